@@ -22,6 +22,7 @@ import (
 
 	"github.com/getkin/kin-openapi/openapi3"
 	"github.com/getkin/kin-openapi/openapi3filter"
+	"github.com/getkin/kin-openapi/routers"
 
 	"kinverif/internal/hx"
 )
@@ -33,6 +34,7 @@ func init() {
 			"value sets (sizes 0–3, negative numbers, dots, delimiters inside strings, strings starting with letters of the parameter name, key orders) × absent/empty/present × required × allowEmptyValue × constraint variants (min/max, enum, minItems, required properties), " +
 			"each serialised by an independent Go implementation of the OpenAPI style table (the driver re-encodes and must agree); allOf/anyOf/oneOf over pairs of leaf schemas × raw texts and × array/object values serialised for the cell (deepObject included); absence with and without other path/query parameters; " +
 			"plus a seeded stream of malformed / free carrier texts assembled from delimiters, prefixes and primitive tokens (incl. non-decimal integers, odd pair counts, wrong prefixes). " +
+			"Every header case runs twice: as a request parameter (ValidateParameter) and as a response header (ValidateResponse → validateResponseHeader). " +
 			"A case is non-trivial when the decoder is actually entered (the driver then reports cell, shape, verdict, value kind, round-trip oracle and model≠spec branches); requests with an empty PathParams map / empty query (early return) count as trivial.",
 		Exhaustive: true,
 		Gen:        genC05,
@@ -43,7 +45,7 @@ func init() {
 		Assumptions: []string{
 			"number texts: strconv.ParseFloat is trusted; the model keeps the exact decimal value and the harness compares with the nearest float64",
 			"number texts with '_' digit separators, 'inf'/'nan' or hex floats are reported unsupported by the driver; texts never contain U+001F or non-ASCII characters; cookie values avoid ';', '\"', '\\' and outer spaces (net/http cookie syntax)",
-			"deepObject keys have at most three bracket segments, canonical decimal array indexes and pairwise different segment lists (other shapes are reported unsupported by the driver and only run for crashes)",
+			"deepObject keys have at most three bracket segments and canonical decimal array indexes; keys whose bracket groups coincide (p[a] and p[a]zz) are order-dependent in the code: the model answers for both map orders, at most one collision of two single-valued keys per request (other shapes are reported unsupported by the driver and only run for crashes)",
 			"schemas carry no default, pattern, format other than int32, nullable or nested compositions",
 		},
 	})
@@ -285,7 +287,59 @@ func c05ErrKind(err error) string {
 	return "other"
 }
 
+// c05RunResp: the header of the case as a *response* header: decoded value through VerifDecodeHeader (decodeValue over
+// headerParamDecoder, as validateResponseHeader calls it), verdict from ValidateResponse on a response that declares
+// only this header.
+func c05RunResp(c hx.Case) any {
+	p, in := c05Build(c)
+	hdr := &openapi3.Header{Parameter: openapi3.Parameter{Required: p.Required, Schema: p.Schema, Style: p.Style, Explode: p.Explode}}
+	respHeader := http.Header{}
+	if h, ok := c["header"].([]any); ok {
+		vs := []string{}
+		for _, v := range h {
+			s, _ := v.(string)
+			vs = append(vs, s)
+		}
+		respHeader[http.CanonicalHeaderKey(p.Name)] = vs
+	}
+	sm, _ := hdr.SerializationMethod()
+	val, found, derr := openapi3filter.VerifDecodeHeader(respHeader, p.Name, sm, p.Schema, p.Required)
+	desc := ""
+	resp := &openapi3.Response{Description: &desc, Headers: openapi3.Headers{p.Name: &openapi3.HeaderRef{Value: hdr}}}
+	op := &openapi3.Operation{Responses: openapi3.NewResponses(openapi3.WithStatus(200, &openapi3.ResponseRef{Value: resp}))}
+	in.Route = &routers.Route{Operation: op}
+	rin := &openapi3filter.ResponseValidationInput{RequestValidationInput: in, Status: 200, Header: respHeader, Options: &openapi3filter.Options{}}
+	verr := openapi3filter.ValidateResponse(context.Background(), rin)
+	verdict := "accept"
+	if verr != nil {
+		var re *openapi3filter.ResponseError
+		var se *openapi3.SchemaError
+		var me openapi3.MultiError
+		switch {
+		case !errors.As(verr, &re):
+			verdict = "other"
+		case re.Err == nil:
+			verdict = "missing" // "response header %q missing" is the only ResponseError of this path without a cause
+		case errors.As(re.Err, &se) || errors.As(re.Err, &me):
+			verdict = "schema"
+		default:
+			verdict = c05ErrKind(re.Err)
+		}
+	}
+	out := map[string]any{"kind": verdict, "verdict": verdict, "found": found, "value": c05Canon(val)}
+	if k := c05ErrKind(derr); k != "" {
+		out["err"] = k
+		out["value"] = nil
+	} else {
+		out["err"] = nil
+	}
+	return out
+}
+
 func runC05(c hx.Case) any {
+	if jstr(c, "mode") == "resp" {
+		return c05RunResp(c)
+	}
 	p, in := c05Build(c)
 	val, found, derr := openapi3filter.VerifDecodeStyledParameter(p, in)
 	p2, in2 := c05Build(c)
@@ -463,7 +517,22 @@ func cmpC05x(c hx.Case, impl any, reply map[string]any) hx.Verdict {
 	}
 	ierr, merr := fmt.Sprint(im["err"]), fmt.Sprint(model["err"])
 	iv, mv, sv := jstr(im, "verdict"), jstr(model, "verdict"), jstr(spec, "verdict")
+	decodeSame := func(m map[string]any) bool {
+		if fmt.Sprint(im["err"]) != fmt.Sprint(m["err"]) {
+			return false
+		}
+		return im["err"] != nil || (jbool(im, "found") == jbool(m, "found") && c05Same(im["value"], m["value"], true))
+	}
+	// colliding deepObject keys: the Go map order decides; the model answers for both orders, and the decoder is run
+	// twice (hook, ValidateParameter), so value and verdict may come from different orders
+	alt, _ := reply["model_alt"].(map[string]any)
 	switch {
+	case alt != nil:
+		if !(decodeSame(model) || decodeSame(alt)) || !(iv == mv || iv == jstr(alt, "verdict")) {
+			v.IM = false
+			v.Detail = fmt.Sprintf("order-dependent decode: impl %s/%s matches neither map order of the model (%s/%s, %s/%s)",
+				hx.Canon(im["value"]), iv, hx.Canon(model["value"]), mv, hx.Canon(alt["value"]), jstr(alt, "verdict"))
+		}
 	case ierr != merr:
 		v.IM = false
 		v.Detail = fmt.Sprintf("decode error kind: impl %s, model %s", ierr, merr)
@@ -778,8 +847,17 @@ func c05AbsentCar(cl c05Cell, name string, mode int) map[string]any {
 	return map[string]any{}
 }
 
-func genC05(ctx *hx.Ctx, emit func(hx.Case)) {
+func genC05(ctx *hx.Ctx, emit0 func(hx.Case)) {
 	r := ctx.Rng
+	// every header case is also run as a response header (validateResponseHeader: the same decoder, another decision)
+	emit := func(c hx.Case) {
+		emit0(c)
+		if jstr(c, "in") == "header" && !jbool(c, "allowEmpty") && !jbool(c, "useDefaults") {
+			d := cloneCase(c)
+			d["mode"] = "resp"
+			emit0(d)
+		}
+	}
 	names := []string{"p", "id"}
 	// parameter names with characters that are special to regular expressions, URLs, header or cookie syntax
 	special := []string{"$filter", "a.b", "x+y", "n|m", "q*", "u[x]", "k(1)"}
@@ -974,7 +1052,8 @@ func genC05(ctx *hx.Ctx, emit func(hx.Case)) {
 		vals []string
 	}
 	deepParts := []dk{{"[a]", []string{"7", "-4", "x"}}, {"[s]", []string{"dave", ""}}, {"[l][0]", []string{"1"}}, {"[l][1]", []string{"2", "q"}},
-		{"[l][2]", []string{"3"}}, {"[o][x]", []string{"5", "z"}}, {"[o][y]", []string{"w"}}, {"[zz]", []string{"1"}}}
+		{"[l][2]", []string{"3"}}, {"[o][x]", []string{"5", "z"}}, {"[o][y]", []string{"w"}}, {"[zz]", []string{"1"}},
+		{"[a]zz", []string{"9", "y"}}} // text after the closing bracket: not a key of the parameter; the code reads it as [a]
 	for ni, name := range allNames {
 		for mask := 1; mask < 1<<len(deepParts); mask++ {
 			if ni >= 2 && mask%5 != ni%5 {
@@ -1011,7 +1090,8 @@ func genC05(ctx *hx.Ctx, emit func(hx.Case)) {
 	}
 	// D2: random — clashes, wrong shapes, deeper keys, several values, foreign keys
 	deepKeys := []string{"[a]", "[s]", "[l][0]", "[l][1]", "[l][2]", "[l]", "[a][0]", "[zz]", "[zz][q]", "[l][x]", "[s][k]", "[a][b][c]", "[l][01]",
-		"[o][x]", "[o][y]", "[o]", "[o][zz]", "[o][x][q]", "[l][0][x]", "[o][x][q][r]"}
+		"[o][x]", "[o][y]", "[o]", "[o][zz]", "[o][x][q]", "[l][0][x]", "[o][x][q][r]",
+		"[a]zz", "[a][", "[s]]", "[o][x]zz", "[l][0]x", "[a]x[b]", "[o]q[x]", "[zz]y"}
 	deepVals := []string{"1", "-4", "x", "", "12", "010"}
 	nDeep := 3000
 	if ctx.Thorough() {
